@@ -3,6 +3,9 @@
    SrcRaw.v), equal the functions of coq/Model/Imageraw.v.  `C::Raw::BITS_PER_PIXEL` is a parameter of the
    generated data_width; the model keeps it in the image record.  Statements only. *)
 From EG Require Import Base.Prelude Base.Casts Model.Geometry Model.Imageraw Gen.SrcRaw Gen.SrcImage Proofs.SrcColor.
+(* the generated definitions that cast to usize (`as usize`, `usize::try_from`) take the width of usize as Casts.UsizeW; the model
+   of this property works with 64-bit usize (exact integers in range): taken at that width *)
+#[local] Existing Instance Casts.usize64_w.
 
 Theorem C09_src_bit_position_is_model : forall bpp alt index,
   src_bit_position bpp alt index = bit_position bpp alt index.
